@@ -1,4 +1,5 @@
 //! Independent reference codecs written from the repository's own format
 //! documents (docs/*.md). They link no rbx_binary / rbx_xml code.
+pub mod binbuild;
 pub mod refattr;
 pub mod refbin;
